@@ -51,7 +51,7 @@ def describe(tier):
         'over {add(c,label), add(c), get, save+reopen}. distinct = distinct (kind, outcome class).',
         'bounds': {
             'quick': 'FMT: n<=3,k<=2 (n+k<=4); EXT: n+k<=4',
-            'thorough': '+ FMT: F(3,2), F(<=2,3); EXT: F(3,2), F(1,3)',
+            'thorough': '+ FMT: F(3,2), F(<=2,3) (three output lists for 3 gates); EXT: F(3,2), F(1,3)',
         }[tier],
         'exhaustive': True,
         'assumptions': ['vmc.refmodel evaluator; structural signature comparison (this module)'],
@@ -128,6 +128,8 @@ def check_circuit(n, gates, acc, alpha, only=None):
     labs = space.labels(n, k)
     in_format = all(FMT_ARITY.get(t) == len(ops) for t, ops in gates)
     outs_all = [()] + [s for ln in (1, 2) for s in itertools.product(range(p), repeat=ln)]
+    if k >= 3:  # largest families: three output lists
+        outs_all = [(), (p - 1,), (p - 1, 0)]
     for outs in outs_all:
         if only is not None and list(outs) != only.get('outputs'):
             continue
